@@ -22,8 +22,10 @@ fn base_scenario(kind: &str, seed: u64, run: u64) -> (Scenario, gen::Knobs) {
     let knobs = gen::Knobs::draw(&mut kr);
     let mut rr = Rng::stream(seed, run, "RULE");
     let mut dr = Rng::stream(seed, run, "DOCS");
-    let corpus_turn = run % 8 == 7;
-    let (text, origin) = if corpus_turn {
+    let corpus_turn = run % 8 == 7 && kind != "hash_big";
+    let (text, origin) = if kind == "hash_big" {
+        (gen::rule_text(&gen::gen_big(&mut rr)), "generated(big)".to_owned())
+    } else if corpus_turn {
         let c = gen::corpus();
         let f = &c[((run / 8) as usize) % c.len()];
         (f.text.clone(), f.name.clone())
@@ -234,12 +236,18 @@ pub fn generate(kind: &str, seed: u64, run: u64, thorough: bool) -> Scenario {
             kind: "process".into(),
             seed,
             run: match (run, thorough) {
-                (0, false) => 300,
+                (0, false) => 1000,
                 (0, true) => 3000,
-                (_, false) => 80,
-                (_, true) => 600,
+                (1, false) => 80,
+                (1, true) => 600,
+                (_, false) => 40,
+                (_, true) => 200,
             },
-            strings: vec![if run == 0 { "hash".into() } else { "history".into() }],
+            strings: vec![match run {
+                0 => "hash".into(),
+                1 => "history".into(),
+                _ => "hash_big".into(),
+            }],
             origin: "process".into(),
             ..Default::default()
         };
@@ -248,7 +256,8 @@ pub fn generate(kind: &str, seed: u64, run: u64, thorough: bool) -> Scenario {
     let mut hr = Rng::stream(seed, run, "HASH");
     let mut sr = Rng::stream(seed, run, "SWITCHES");
     match kind {
-        "hash" => {
+        "hash" | "hash_big" => {
+            sc.kind = "hash".into();
             sc.switch_sets = if thorough {
                 (1..=15).collect()
             } else {
@@ -890,6 +899,10 @@ fn exec_process(sc: &Scenario) -> Outcome {
     let mut vs = vec![];
     let sub = sc.strings.first().map(|s| s.as_str()).unwrap_or("hash");
     let n = sc.run.max(1);
+    // Behaviour that depends on per-process randomness (std's RandomState) differs between
+    // processes only now and then: when replaying, several rounds of fresh children are compared.
+    let rounds: u32 = std::env::var("TAUSIM_PROCESS_ROUNDS").ok().and_then(|s| s.parse().ok()).unwrap_or(1);
+    for round in 0..rounds {
     let (c1, c2, c3) = (
         spawn_digests(sub, sc.seed, n, &["--workers", "1"]),
         spawn_digests(sub, sc.seed, n, &["--reverse"]),
@@ -900,7 +913,7 @@ fn exec_process(sc: &Scenario) -> Outcome {
         (Some(a), Some(b), Some(c)) if a.len() as u64 == n && b.len() as u64 == n && c.len() as u64 == n => (a, b, c),
         _ => {
             stats.inc("process_check_children_failed");
-            return Outcome::clean(&d, stats);
+            continue;
         }
     };
     stats.add("process_digests_compared", 2 * n);
@@ -921,6 +934,11 @@ fn exec_process(sc: &Scenario) -> Outcome {
                 );
             }
         }
+    }
+    if !vs.is_empty() {
+        break;
+    }
+    let _ = round;
     }
     stats.seen("nontrivial", Digest::new().str(sub).u64(sc.seed).finish());
     Outcome::of(&d, stats, vs)
